@@ -335,6 +335,50 @@ def stage_harness(features=None, release=False):
 
 # ---------------------------------------------------------------------------------------------
 # stage 3: correspondence run
+# Bounded-exhaustive tie (harness `enum` | driver `enum`): EVERY string of length 1..=maxlen over the alphabet, under the
+# listed base directions, BidiInfo levels and paragraph levels of the real crate vs the extracted model.
+ENUM_SPECS = {
+    "quick": [
+        "E 7 01 5d0,61,28,29,2067,2069",            # R L ( ) RLI PDI : brackets x isolates (BD13, BD16, N0-N2)
+        "E 6 01 627,61,31,24,2066,2069,5d0",        # AL L EN ET LRI PDI R : weak rules across isolating run sequences
+    ],
+    "thorough": [
+        "E 8 01 5d0,61,28,29,2067,2069",
+        "E 9 01 627,61,31,2066,2069",               # AL L EN LRI PDI
+        "E 7 01 627,61,31,24,2066,2069,5d0",
+        "E 7 01 5d0,31,661,2b,2c,24,300,ad",        # R EN AN ES CS ET NSM BN : W1-W7 dense
+        "E 7 0 61,5d0,202b,202d,202c,2066,2069,21", # L R RLE LRO PDF LRI PDI ON : X1-X8 with X9 removal
+    ],
+}
+
+def stage_enum(d, tier, hbin):
+    """returns (stats, mismatch case lines)"""
+    driver = os.path.join(CACHE, "ocaml", "driver")
+    spec = os.path.join(d, "enum_spec.txt")
+    open(spec, "w").write("\n".join(ENUM_SPECS.get(tier, ENUM_SPECS["quick"])) + "\n")
+    procs = []
+    for i in range(NPROC):
+        cmd = "%s enum %s %d %d | %s enum %s %d %d" % (hbin, spec, i, NPROC, driver, spec, i, NPROC)
+        procs.append(subprocess.Popen(cmd, shell=True, stdout=subprocess.PIPE, stderr=subprocess.STDOUT, text=True))
+    compared, mism, errs = 0, [], []
+    deadline = time.time() + (1200 if tier == "quick" else 3 * 3600)
+    for i, p in enumerate(procs):
+        try:
+            out, _ = p.communicate(timeout=max(5, deadline - time.time()))
+        except subprocess.TimeoutExpired:
+            p.kill(); out, _ = p.communicate()
+            errs.append("enum shard %d did not finish in time" % i); continue
+        done = False
+        for ln in out.splitlines():
+            f = ln.split("\t")
+            if f[0] == "ENUM-DONE":
+                compared += int(f[1].split("=")[1]); done = True
+            elif f[0] == "ENUM-MISMATCH":
+                mism.append((f[1], f[2]))
+        if not done: errs.append("enum shard %d did not finish: %s" % (i, out[-300:]))
+    lines = ["T\t%d\t8\t%s\t%s\t-\t-\tE" % (3000000 + k, dr, cps) for k, (cps, dr) in enumerate(mism[:400])]
+    return {"compared": compared, "mismatches": len(mism), "specs": ENUM_SPECS.get(tier, ENUM_SPECS["quick"]), "errors": errs}, lines
+
 def split_cases(lines, n):
     """round-robin shards (balances the expensive deep cases); a line tagged twin:/iso: stays with
     its predecessor"""
@@ -387,8 +431,13 @@ def stage_corr(seed, tier, hbin, extra_cases=None, tag=""):
                                                    os.path.join(d, "impl_%d.txt" % i), os.path.join(d, "verdicts_%d.txt" % i))
         procs.append(subprocess.Popen(cmd, shell=True, stdout=subprocess.PIPE, stderr=subprocess.STDOUT, text=True))
     errs = []
+    deadline = time.time() + (1800 if tier == "quick" else 4 * 3600)
     for i, p in enumerate(procs):
-        out, _ = p.communicate(timeout=6 * 3600)
+        try:
+            out, _ = p.communicate(timeout=max(5, deadline - time.time()))
+        except subprocess.TimeoutExpired:
+            p.kill(); out, _ = p.communicate()
+            errs.append("shard %d did not finish in time (the implementation or the model hangs on some case?)" % i); continue
         if p.returncode != 0: errs.append("shard %d: rc=%d %s" % (i, p.returncode, out[-500:]))
     with open(vp, "w") as vf:
         for i in range(len(shards)):
@@ -401,7 +450,25 @@ def stage_corr(seed, tier, hbin, extra_cases=None, tag=""):
             if os.path.exists(f):
                 imf.write(open(f).read()); os.remove(f)
             os.remove(os.path.join(d, "cases_%d.txt" % i))
-    json.dump({"seed": seed, "tier": tier, "cases": len(lines), "gen_stats": gen_stats, "errors": errs,
+    enum_stats = {}
+    if extra_cases is None:
+        enum_stats, elines = stage_enum(d, tier, hbin)
+        errs += enum_stats.get("errors", [])
+        if elines:
+            # run the disagreeing strings through the full pipeline (fields, judges) like any other case
+            ecp = os.path.join(d, "cases_enum.txt"); open(ecp, "w").write("\n".join(elines) + "\n")
+            rc_e, out_e, _ = sh("%s run %s > %s && %s corr %s %s %s" % (hbin, ecp, os.path.join(d, "impl_enum.txt"), driver, ecp,
+                                                                      os.path.join(d, "impl_enum.txt"), os.path.join(d, "verdicts_enum.txt")))
+            if rc_e == 0:
+                open(cases, "a").write("\n".join(elines) + "\n")
+                open(vp, "a").write(open(os.path.join(d, "verdicts_enum.txt")).read())
+                open(os.path.join(d, "impl.txt"), "a").write(open(os.path.join(d, "impl_enum.txt")).read())
+                lines += elines
+            else:
+                errs.append("enum mismatches could not be re-run: " + out_e[-300:])
+        gen_stats["enum.compared"] = enum_stats.get("compared", 0)
+        gen_stats["enum.mismatches"] = enum_stats.get("mismatches", 0)
+    json.dump({"seed": seed, "tier": tier, "cases": len(lines), "gen_stats": gen_stats, "errors": errs, "enum": enum_stats,
                "wall_s": time.time() - t0}, open(os.path.join(d, "meta.json"), "w"))
     return d
 
@@ -710,6 +777,10 @@ def decide_from_corr(prop, tier, seed):
         elif chk["rc"] not in (0, 124):
             ps["problems"].append("coqchk failed: " + chk.get("tail", "")[-200:]); ps["ok"] = False
     meta = json.load(open(os.path.join(d, "meta.json")))
+    if meta.get("errors"):
+        # an incomplete run decides nothing; do not keep it in the cache
+        shutil.rmtree(d, ignore_errors=True)
+        return infra_violation(prop, "the correspondence run did not complete", "; ".join(meta["errors"]), tier, seed, t0)
     verdicts = load_verdicts(d)
     kinds = KINDS.get(prop, ("T",))
     mine = [v for v in verdicts if v["kind"] in kinds]
